@@ -53,6 +53,13 @@ func c03Queries() []c03Query {
 	std("TXT/CH", func(m *refdns.Msg) { m.Q[0].Type, m.Q[0].Class = 16, 3 })
 	std("mixed-case", func(m *refdns.Msg) { m.Q[0].Name = refdns.N("WwW", "eXaMpLe", "TEST") })
 	std("root", func(m *refdns.Msg) { m.Q[0].Name = nil })
+	std("name-255-wire-octets", func(m *refdns.Msg) {
+		m.Q[0].Name = refdns.N(strings.Repeat("a", 63), strings.Repeat("b", 63), strings.Repeat("c", 63), strings.Repeat("d", 61))
+	})
+	std("name-254-wire-octets", func(m *refdns.Msg) {
+		m.Q[0].Name = refdns.N(strings.Repeat("a", 63), strings.Repeat("b", 63), strings.Repeat("c", 63), strings.Repeat("d", 60))
+	})
+	std("label-with-odd-octets", func(m *refdns.Msg) { m.Q[0].Name = refdns.N("a\x00b", "c.d", "\xff\\", "test") })
 	std("opt", func(m *refdns.Msg) { m.Ar = []refdns.RR{refdns.OPT(4096, 0, nil)} })
 	std("opt+cookie+do", func(m *refdns.Msg) {
 		m.Ar = []refdns.RR{refdns.OPT(1232, 0x8000, refdns.Option(10, []byte{1, 2, 3, 4, 5, 6, 7, 8}))}
@@ -349,15 +356,18 @@ func (t *c03UDP) responses() ([]*refdns.Msg, [][]byte) {
 }
 func (t *c03UDP) close() { t.u.Close() }
 
+// seamIdle is the idle time-out of the stream listeners opened by the seams (scenarios that let long virtual time pass raise it)
+var seamIdle = 30 * time.Second
+
 var c03Seams = []c03Seam{
 	{"tcp", func(v *vRouter) c03Client {
-		return &c03TCP{v.tcpClient(v.newTCPServer(0, 30*time.Second), vClientV4, vLocalV4)}
+		return &c03TCP{v.tcpClient(v.newTCPServer(0, seamIdle), vClientV4, vLocalV4)}
 	}},
 	{"gnet", func(v *vRouter) c03Client {
-		return &c03Gnet{v.gnetClient(v.newGnetServer(0, 30*time.Second), vClientV4, vLocalV4)}
+		return &c03Gnet{v.gnetClient(v.newGnetServer(0, seamIdle), vClientV4, vLocalV4)}
 	}},
 	{"tls", func(v *vRouter) c03Client {
-		s := v.newTCPServer(0, 30*time.Second)
+		s := v.newTCPServer(0, seamIdle)
 		s.tlsConfig = &tls.Config{Certificates: []tls.Certificate{vServerCert()}}
 		return &c03TLS{v.tlsClient(s, vClientV4, vLocalV4)}
 	}},
